@@ -211,6 +211,14 @@ class UnitX(Unit):
                 emit_verbatim(out, c, f)
         fn = child(im, 'fn', 'try_from_node')
         CH = '|n| n.tag_name().name() == "choice"'
+        # the same closure text is used on an Option<Node> (`is_some_and`: the node by value) and on the collected groups (`iter().any`: by
+        # reference): which postcondition applies is decided by the call it is passed to, not by its ordinal
+        import re as _re
+        choice_closures = []
+        for k, m in enumerate(_re.finditer(_re.escape(CH), fn.body)):
+            before = fn.body[:m.start()].rstrip()
+            by_ref = before.endswith('.any(')
+            choice_closures.append({'at': CH, 'occurrence': k, 'ensures': 'b == (tag(*n) == "choice"@)' if by_ref else 'b == (tag(n) == "choice"@)'})
         splice_fn(out, fn, f, 'field::Field::try_from_node', probe=probe, specified=('take_while', 'starts_with'),
                   ensures=[('flags-follow-the-declaration', 'res is Ok ==> is_field_of(res->Ok_0, node)')],
                   origin={'flags-follow-the-declaration': 'property'},
@@ -218,9 +226,7 @@ class UnitX(Unit):
                            'type': '-', 'note': CLONE_FROM_NOTE}],
                   closures=[{'at': '|n| matches!(n.tag_name().name(), "sequence" | "choice" | "all")', 'ensures': 'b == is_grp3(*n)'},
                             {'at': '|n| n.attribute("minOccurs") == Some("0")', 'ensures': 'b == min0(*n)'},
-                            {'at': CH, 'occurrence': 0, 'ensures': 'b == (tag(n) == "choice"@)'},
-                            {'at': CH, 'occurrence': 1, 'ensures': 'b == (tag(*n) == "choice"@)'},
-                            {'at': CH, 'occurrence': 2, 'ensures': 'b == (tag(n) == "choice"@)'},
+                            ] + choice_closures + [
                             {'at': '|n: &Node| n.attribute("maxOccurs").is_some_and(|m| m != "1" && m != "0")', 'ensures': 'b == may_repeat(*n)'},
                             {'at': '|m| m != "1" && m != "0"', 'ensures': 'b == (m@ != "1"@ && m@ != "0"@)'},
                             {'at': '|ns| doc.find_namespace_by_abbreviation(ns)', 'ret': 'r: Option<&Rc<Namespace>>', 'ensures': 'true'},
